@@ -13,6 +13,7 @@ import (
 
 	"github.com/brutella/hc/accessory"
 	"github.com/brutella/hc/characteristic"
+	"pgregory.net/rapid"
 	"verifharness/registry"
 	"verifharness/stats"
 )
@@ -462,4 +463,89 @@ func exerciseTyped(typed interface{}, ch *characteristic.Characteristic) (err er
 		}
 	}
 	return nil
+}
+
+// TestC15Accessories: every accessory constructor for varied arguments. Whatever the given names, serial
+// numbers and revisions look like, the object is usable and each of its services still holds the
+// characteristics the metadata requires for the service's type, none of them twice.
+func TestC15Accessories(t *testing.T) {
+	meta := loadMeta(t)
+	required := map[string][]string{}
+	for _, m := range meta.Services {
+		for _, r := range m.RequiredCharacteristics {
+			required[minify(m.UUID)] = append(required[minify(m.UUID)], minify(r))
+		}
+	}
+	infoString := rapid.OneOf(
+		rapid.SampledFrom([]string{"", "1", "1.0", "1.0.0", "1.0.0.4", "v1.2-beta", "2.1a", "1.0 ", " ", "undefined", "0", "00.00.00", "1..2", ".", "-1", "1.0.0;", "名前", "a\x00b", "\"quoted\"", "<b>", strings.Repeat("9", 70), strings.Repeat("x", 300)}),
+		rapid.StringN(0, 12, 40), rapid.StringMatching(`[0-9]{1,3}(\.[0-9]{1,3}){0,3}`), rapid.StringMatching(`[ -~]{0,20}`))
+	rapid.Check(t, func(t *rapid.T) {
+		c := registry.Accessories[rapid.IntRange(0, len(registry.Accessories)-1).Draw(t, "ctor")]
+		args := registry.DefaultArgs("x")
+		args.Info.Name = infoString.Draw(t, "name")
+		args.Info.SerialNumber = infoString.Draw(t, "serial")
+		args.Info.Manufacturer = infoString.Draw(t, "manufacturer")
+		args.Info.Model = infoString.Draw(t, "model")
+		args.Info.FirmwareRevision = infoString.Draw(t, "firmware")
+		args.Info.ID = uint64(rapid.IntRange(0, 3).Draw(t, "id"))
+		plain := args.Info.FirmwareRevision == "" || regexp.MustCompile(`^[0-9]+(\.[0-9]+){0,2}$`).MatchString(args.Info.FirmwareRevision)
+		cls := []string{"accessory-arguments"}
+		if !plain {
+			cls = append(cls, "accessory-arguments:odd-revision")
+		}
+		stats.Case(stats.Hash("acc-args", c.Name, fmt.Sprintf("%q", args.Info)), !plain, cls, func() interface{} {
+			return map[string]interface{}{"constructor": c.Name, "info": fmt.Sprintf("%+q", args.Info)}
+		})
+		a, _, err := registry.NewAccessory(c, args)
+		if err != nil {
+			t.Fatalf("accessory.%s(%+q): %v", c.Name, args.Info, err)
+		}
+		var problem string
+		func() {
+			defer func() {
+				if r := recover(); r != nil {
+					problem = fmt.Sprintf("using the accessory panicked: %v", r)
+				}
+			}()
+			if a.Info == nil || a.Info.Service == nil || len(a.Services) == 0 || a.Services[0] != a.Info.Service {
+				problem = "the information service is missing or not the first service"
+				return
+			}
+			for si, s := range a.Services {
+				if s == nil {
+					problem = fmt.Sprintf("service %d is nil", si)
+					return
+				}
+				count := map[string]int{}
+				for _, ch := range s.Characteristics {
+					if ch == nil {
+						problem = fmt.Sprintf("service %d (type %s) holds a nil characteristic", si, s.Type)
+						return
+					}
+					count[ch.Type]++
+					if count[ch.Type] > 1 {
+						problem = fmt.Sprintf("service %d (type %s) holds two characteristics of type %s", si, s.Type, ch.Type)
+						return
+					}
+				}
+				for _, r := range required[s.Type] {
+					if count[r] == 0 {
+						problem = fmt.Sprintf("service %d (type %s) lacks the required characteristic of type %s", si, s.Type, r)
+						return
+					}
+				}
+			}
+			cont := accessory.NewContainer()
+			if err := cont.AddAccessory(a); err != nil {
+				problem = fmt.Sprintf("cannot be added to a container: %v", err)
+				return
+			}
+			if _, err := json.Marshal(cont); err != nil {
+				problem = fmt.Sprintf("does not JSON-encode: %v", err)
+			}
+		}()
+		if problem != "" {
+			t.Fatalf("accessory.%s(%+q): %s", c.Name, args.Info, problem)
+		}
+	})
 }
